@@ -256,6 +256,20 @@ func init() {
 		e.c04GuardedDef(s, eng, "engine.bindFeaturedRoutes", "engBindFeatured", []string{"bindRoute("})
 		e.c04GuardedDef(s, eng, "engine.bindRoutes", "engBindRoutes", []string{"bindFeaturedRoutes("})
 
+		// zrpc wiring: configuration -> interceptors
+		e.c04GuardedDef(s, "zrpc/server.go", "setupUnaryInterceptors", "zrpcSrvWiring", []string{"UnaryTimeoutInterceptor"})
+		e.c04GuardedDef(s, "zrpc/client.go", "NewClient", "zrpcCliConf", []string{"WithTimeout(", "options..."})
+		e.c04DetailDef(s, "zrpc/client.go", "WithCallTimeout", "zrpcWithCallTimeout", nil)
+		e.c04DetailDef(s, "zrpc/internal/client.go", "WithTimeout", "zrpcCliWithTimeoutOpt", lit1)
+		e.c04GuardedDef(s, "zrpc/internal/client.go", "client.buildDialOptions", "zrpcCliDialOptions", []string{"cliOpts"})
+		e.c04GuardedDef(s, "zrpc/internal/client.go", "client.buildUnaryInterceptors", "zrpcCliWiring", []string{"TimeoutInterceptor"})
+
+		// the default error path of the timeout branch, and the pass-through methods of timeoutWriter
+		e.c04GuardedDef(s, "rest/httpx/responses.go", "ErrorCtx", "httpxErrorCtx", []string{"doHandleError"})
+		e.c04GuardedDef(s, "rest/httpx/responses.go", "doHandleError", "httpxDefaultError", []string{"fn(w, err)"})
+		e.c04DetailDef(s, th, "timeoutWriter.Hijack", "twHijackDetail", nil)
+		e.c04DetailDef(s, th, "timeoutWriter.Push", "twPushDetail", nil)
+
 		// REST
 		b := e.c04Shape(s, th, "TimeoutHandler", "timeoutHandlerCtorShape", nil)
 		_ = b
